@@ -129,3 +129,35 @@ def guard_tests(node: ast.AST, stop: ast.AST) -> List[Tuple[ast.expr, bool]]:
         child = p
         p = getattr(p, '_parent', None)
     return out
+
+
+def values_of(f: Func, name: str) -> List[ast.AST]:
+    """Values assigned to local `name` anywhere in f (Assign / AnnAssign / AugAssign / tuple-unpacking sources)."""
+    out: List[ast.AST] = []
+    for n in f.walk():
+        if isinstance(n, ast.Assign):
+            for t in n.targets:
+                if isinstance(t, ast.Name) and t.id == name:
+                    out.append(n.value)
+                elif isinstance(t, (ast.Tuple, ast.List)) and any(isinstance(e, ast.Name) and e.id == name for e in t.elts):
+                    out.append(n.value)
+        elif isinstance(n, (ast.AnnAssign, ast.AugAssign)) and isinstance(n.target, ast.Name) and n.target.id == name and n.value is not None:
+            out.append(n.value)
+    return out
+
+
+def names_assigned_from(f: Func, pred: Callable[[ast.AST], bool]) -> Set[str]:
+    """Local names that receive (at least once) a value satisfying `pred`."""
+    out: Set[str] = set()
+    for n in f.walk():
+        if isinstance(n, ast.Assign) and pred(n.value):
+            for t in n.targets:
+                if isinstance(t, ast.Name):
+                    out.add(t.id)
+        elif isinstance(n, ast.AnnAssign) and n.value is not None and pred(n.value) and isinstance(n.target, ast.Name):
+            out.add(n.target.id)
+    return out
+
+
+def is_name_in(e: Optional[ast.AST], names: Iterable[str]) -> bool:
+    return isinstance(e, ast.Name) and e.id in set(names)
